@@ -433,12 +433,16 @@ impl RealLiteral {
             return Err("Non-real characters");
         }
         let r: String = r.into_iter().collect();
-        f64::from_str(r.as_str())
-            .map(|value| RealLiteral {
-                value,
-                data_type: tn,
-            })
-            .map_err(|e| "real")
+        let value = f64::from_str(r.as_str()).map_err(|e| "real")?;
+        // A literal beyond the largest number is parsed as infinity,
+        // and that is not the value of the literal.
+        if !value.is_finite() {
+            return Err("real in range");
+        }
+        Ok(RealLiteral {
+            value,
+            data_type: tn,
+        })
     }
 }
 
